@@ -41,8 +41,9 @@ def _range(draw, lay, table, maxq):
     if not rs:
         return None
     a0, n = draw(st.sampled_from(rs[:3])) if len(rs) > 1 else rs[0]
-    q = draw(st.one_of(st.integers(1, min(maxq, n, 4)), st.integers(1, min(maxq, n))))
-    o = draw(st.one_of(st.just(0), st.integers(0, min(3, n - q)), st.integers(0, n - q)))
+    q = draw(st.one_of(st.integers(1, min(maxq, n, 4)), st.integers(1, min(maxq, n)), st.just(min(maxq, n)), st.integers(max(1, min(maxq, n) - 3), min(maxq, n))))
+    # offset: at the start of the run, near it, anywhere, or so that the range ends exactly on the last cell of the run
+    o = draw(st.one_of(st.just(0), st.integers(0, min(3, n - q)), st.integers(0, n - q), st.just(n - q)))
     return a0 + o, q
 
 
